@@ -77,10 +77,14 @@ def gen_cases(ctx):
     for s in ([1, 2, 3, 5, 8, 16] if not ctx.thorough() else range(1, 17)):
         cases.append({"kind": "kernel1d", "s": s})
     for x in [-2.5, -2.0, -1.5, -1.0, -0.5, 0.0, 0.25, 1.0, 1.75, 2.0, 3.0]:
-        for d in (0, 1, 2):
+        for d in (0, 1, 2, 3):
             cases.append({"kind": "bvalue", "x": x, "d": d})
     for _ in range(ctx.n(12, 120)):
-        cases.append({"kind": "bvalue", "x": dy(rng, 6, -3, 3), "d": rng.choice([0, 1, 2])})
+        cases.append({"kind": "bvalue", "x": dy(rng, 6, -3, 3), "d": rng.choice([0, 1, 2, 3])})
+    for _ in range(ctx.n(8, 60)):
+        D = rng.choice([1, 2, 3])
+        cases.append({"kind": "kernelnd", "D": D, "stride": [rng.randint(1, 4 if D < 3 else 3) for _ in range(D)] if rng.random() < 0.8 else rng.randint(1, 3),
+                      "d": rng.choice([0, 0, 1, 2, 3])})
     for _ in range(ctx.n(25, 300)):
         if rng.random() < 0.6:
             cases.append({"kind": "ctrl", "m": rng.randint(1, 300), "s": rng.randint(1, 16)})
@@ -179,6 +183,23 @@ def case_terms(c, r):
     if k == "kernel1d":
         s = c["s"]
         return [f"vclose tol32 (map (fun i => kerT (K:=QcF) {s} (Z.of_nat i)) (seq 0 {4 * s - 1})) {nest(r['val'])}"]
+    if k == "kernelnd":
+        D = c["D"]
+        ss = [c["stride"]] * D if isinstance(c["stride"], int) else c["stride"]  # (sx, sy, sz)
+        d = c["d"]
+        if r["shape"] != [4 * s_ - 1 for s_ in reversed(ss)]:
+            return [None]
+        kv = lambda s_, i: (f"(let z := (Z.of_nat {i} - {(4 * s_ - 1) // 2})%Z in "
+                            f"gen_B{d} (K:=QcF) (piece_of_Z z {s_}) (Qcdiv (Q2Qc (inject_Z z)) (q {s_} 1)))")
+        if D == 1:
+            t = coq_list([kv(ss[0], i) for i in range(4 * ss[0] - 1)])
+            return [f"vclose tol32 {t} {nest(r['val'])}"]
+        if D == 2:
+            t = coq_list([coq_list([f"Qcmult {kv(ss[1], j)} {kv(ss[0], i)}" for i in range(4 * ss[0] - 1)]) for j in range(4 * ss[1] - 1)])
+            return [f"mclose tol32 {t} {nest(r['val'])}"]
+        t = coq_list([coq_list([coq_list([f"Qcmult (Qcmult {kv(ss[2], k_)} {kv(ss[1], j)}) {kv(ss[0], i)}" for i in range(4 * ss[0] - 1)])
+                                for j in range(4 * ss[1] - 1)]) for k_ in range(4 * ss[2] - 1)])
+        return [f"tclose tol32 {t} {nest(r['val'])}"]
     if k == "bvalue":
         from fractions import Fraction
         fr = Fraction(c["x"])
@@ -279,7 +300,7 @@ def tag_of(c):
     k = c["kind"]
     if k == "eval":
         return f"eval:D{c['D']}:{'transpose' if c['transpose'] else 'default'}:{'deriv' if any(c['derivative']) else 'value'}"
-    if k in ("subdiv", "ffd", "sderiv", "ctrlgrid"):
+    if k in ("subdiv", "ffd", "sderiv", "ctrlgrid", "kernelnd"):
         return f"{k}:D{c['D']}" + (":refine" if c.get("refine") else "")
     return k
 
